@@ -38,6 +38,21 @@ impl BlockDecoder {
             return Ok(());
         }
 
+        // Largest number of source symbols that the FEC scheme is able to identify / to decode
+        let max_nb_source_symbols: u32 = match oti.fec_encoding_id {
+            oti::FECEncodingID::NoCode => 65536,
+            oti::FECEncodingID::Raptor => 8192,
+            oti::FECEncodingID::RaptorQ => 56403,
+            _ => u32::MAX,
+        };
+
+        if nb_source_symbols > max_nb_source_symbols {
+            return Err(FluteError::new(format!(
+                "Source block of {} symbols, max is {} for {:?}",
+                nb_source_symbols, max_nb_source_symbols, oti.fec_encoding_id
+            )));
+        }
+
         match oti.fec_encoding_id {
             oti::FECEncodingID::NoCode => {
                 let codec = nocode::NoCodeDecoder::new(nb_source_symbols as usize);
